@@ -71,6 +71,19 @@ def fit_case(case):
     if p["seed"] == 1:      # ... and spelled as numpy integers (values taken from an array, a grid of a model-selection tool)
         kw = {k: (np.int64(x) if isinstance(x, int) and not isinstance(x, bool) and k != "random_state" else x) for k, x in kw.items()}
     model = Kauri(**kw) if p["seed"] == 0 else Kauri().set_params(**kw)
+    if p["kernel"] != "linear" and p["seed"] == 0 and n >= 2:
+        # estimator-protocol route on the kernel-axis deviation: the SAME object first worked on the same samples with another kernel
+        # (fit + score), then got the configuration under test through set_params - a model-selection sweep over kernels
+        import warnings
+        model = Kauri(kernel="linear" if p["kernel"] != "precomputed" else "rbf", max_clusters=2, random_state=3)
+        with warnings.catch_warnings():
+            warnings.simplefilter("ignore")
+            try:
+                model.fit(X)
+                model.score(X)
+            except Exception:  # noqa
+                pass
+        model.set_params(**kw)
     if n < msl:
         try:
             model.fit(X, y)
